@@ -69,7 +69,6 @@ CFG = {
         "files": ["src/geom2/align2/points_to_curve.rs", "src/geom3/align3/points_to_mesh.rs", "src/common/align.rs", "src/geom2/align2/rc_params2.rs"],
         "tol": {"*": 1e-8},
         "trusted": ["external: levenberg-marquardt 0.14 (trial/accept history recorded through the verif hook and replayed on the model), parry closest-point queries (see C02)"],
-        "claimed": False,
     },
     "C08": {
         "cases": {"quick": 4800, "thorough": 480000},
